@@ -66,3 +66,15 @@ Print Assumptions C18_tags_agree.
 Example C18_example :
   lib_ok c18_example_spec /\ lib_annots_ok c18_example_spec /\ in_go_ranges c18_example_spec /\ timeouts_ok c18_example_spec.
 Proof. exact c18_example_hyps. Qed.
+
+(* ---- the link to the library's own validation (C05): what the library accepts has the two properties assumed above ---- *)
+From CDI Require Import Decode Version Validate ValidateProofs LibLink.
+Theorem C18_wf_lib_ok : forall s, WF s -> lib_ok s /\ lib_annots_ok s.
+Proof. exact wf_lib_ok. Qed.
+Print Assumptions C18_wf_lib_ok.
+(* the property at full strength: every Spec value that validate_spec (the model of Spec.validate, C05) accepts — integers
+   within their Go types, hook timeouts within 0..2^32-1 — passes the builtin schema regenerated from the shipped files *)
+Theorem C18_library_valid_passes_schema : forall s,
+  validate_spec s = Ok tt -> in_go_ranges s -> timeouts_ok s -> validate builtin (doc_of_spec s) = true.
+Proof. exact library_valid_passes_schema. Qed.
+Print Assumptions C18_library_valid_passes_schema.
